@@ -123,9 +123,9 @@ func (ac *asyncCase) describe(kind string) string {
 func genAsyncCase(c *fw.Ctx, r *rng.R) *asyncCase {
 	ac := &asyncCase{}
 	ac.n = []int{0, 1, 2, 3, 4, 5, 5, 8, 16, 33, 64, r.Range(0, 64), r.Range(0, 64), 200}[r.Intn(14)]
-	procs := []int{1, 4}
+	procs := []int{1, 4, 2*runtime.NumCPU() + 1}
 	if !c.Quick() {
-		procs = []int{1, 2, 4, 16}
+		procs = []int{1, 2, 4, 16, runtime.NumCPU() + 1, 4 * runtime.NumCPU()}
 	}
 	ac.procs = procs[r.Intn(len(procs))]
 	ac.plans = make([]delayPlan, ac.n)
@@ -266,12 +266,32 @@ func runC15(c *fw.Ctx) {
 		n := []int{2, 3, 5, 8, 17, 33, 64, 100}[r.Intn(8)]
 		procs := []int{1, 1, 2, 4, 16}[r.Intn(5)]
 		onList := r.Bool()
+		// the state of the rest of the process is not the container's business: now and then 12 000 other goroutines are
+		// parked while the call runs (not under the race detector, whose runtime ends the process beyond 8128 live
+		// goroutines), or GOMAXPROCS is above the number of cores
+		crowd := 0
+		if !c.Race && r.Chance(1, 4) {
+			crowd = 12000
+		}
+		if r.Chance(1, 4) {
+			procs = []int{runtime.NumCPU() + 1, 2*runtime.NumCPU() + 1, 4 * runtime.NumCPU()}[r.Intn(3)]
+		}
 		in := func() string {
-			return fmt.Sprintf("ForEachAsync (list=%v) over %d elements at GOMAXPROCS=%d where every callback waits until all %d callbacks have started", onList, n, procs, n)
+			return fmt.Sprintf("ForEachAsync (list=%v) over %d elements at GOMAXPROCS=%d (%d cores, %d other goroutines parked) where every callback waits until all %d callbacks have started", onList, n, procs, runtime.NumCPU(), crowd, n)
 		}
 		watchedFor(c, 25*time.Second, in, func() {
 			runtime.GOMAXPROCS(procs)
 			setHookTable(nil)
+			if crowd > 0 {
+				park := make(chan struct{})
+				var parked sync.WaitGroup
+				for j := 0; j < crowd; j++ {
+					parked.Add(1)
+					go func() { defer parked.Done(); <-park }()
+				}
+				defer func() { close(park); parked.Wait() }()
+				c.Count("rendezvous_calls_in_a_crowded_process")
+			}
 			var started int64
 			all := make(chan struct{})
 			var once sync.Once
@@ -893,7 +913,7 @@ func c15Readers(c *fw.Ctx, r *rng.R) {
 			vv := c15Values(rr, n)
 			l, how := buildReceiverList(rr, vv)
 			shared := at.NewList(1, "x", 2.5)
-			l.Add(shared) // a nested list that also sits in the object (shared child)
+			l.Add(shared)                                                  // a nested list that also sits in the object (shared child)
 			l.SetTF(fmt.Sprintf("#%d", l.Count()+2), "behind nil padding") // nil slots written by the padding of SetTF
 			o := at.NewObject("nested", at.NewObject("list", at.NewList(1, 2, 3)), "shared", shared, "str", "s", "int", 1, "nil", nil, "padded", at.NewList().SetTF("#2", 1))
 			for i, v := range vv {
